@@ -212,6 +212,97 @@ Not applicable (run-time values): resolution of references, nested CHOICE/SEQUEN
         }
     }
 
+    // every caller hands the helper the *highest* declared bit number (not the last declared, not the count)
+    {
+        let dv = |n: &str, v: i128| {
+            let mut f = BTreeMap::new();
+            f.insert("name".to_string(), Val::Str(n.into()));
+            f.insert("value".to_string(), Val::int(v));
+            Val::Ctor("DistinguishedValue".into(), vec![], f)
+        };
+        let mut sites = 0;
+        for f in m.fns.iter().filter(|f| f.krate == "rasn-compiler" && !f.module.contains("tests") && f.name != "bit_string_value_from_named_bits") {
+            let calls: Vec<syn::ExprCall> = model::calls_in(&f.block).into_iter().filter(|c| model::callee_name(c).as_deref() == Some("bit_string_value_from_named_bits")).collect();
+            if calls.is_empty() {
+                continue;
+            }
+            // (pattern, initialiser) pairs of every `let` / `if let` of the fn, tuples taken apart
+            struct L {
+                out: Vec<(syn::Pat, syn::Expr)>,
+            }
+            impl L {
+                fn add(&mut self, p: &syn::Pat, e: &syn::Expr) {
+                    match (p, e) {
+                        (syn::Pat::Tuple(pt), syn::Expr::Tuple(et)) if pt.elems.len() == et.elems.len() => {
+                            for (a, b) in pt.elems.iter().zip(et.elems.iter()) {
+                                self.add(a, b);
+                            }
+                        }
+                        _ => self.out.push((p.clone(), e.clone())),
+                    }
+                }
+            }
+            impl model::DeepCb for L {
+                fn expr(&mut self, e: &syn::Expr) {
+                    if let syn::Expr::Let(l) = e {
+                        self.add(&l.pat, &l.expr);
+                    }
+                }
+                fn local(&mut self, l: &syn::Local) {
+                    if let Some(init) = &l.init {
+                        self.add(&l.pat, &init.expr);
+                    }
+                }
+            }
+            let mut l = L { out: vec![] };
+            model::deep_walk_block(&f.block, &mut l);
+            for c in calls {
+                sites += 1;
+                let (Some(a0), Some(a2)) = (c.args.first(), c.args.iter().nth(2)) else {
+                    ctx.fail_closed("C07.bits", &format!("{}: call of bit_string_value_from_named_bits with fewer than 3 arguments", f.name));
+                    continue;
+                };
+                let key = format!("highest-bit-argument:{}:{}", f.name, model::line_of(syn::spanned::Spanned::span(&c)));
+                ctx.oblige("C07.bits", &format!("highest-bit-argument:{}", f.name), true);
+                let a0t = tok(a0).trim_start_matches('*').to_string();
+                let list_name = tok(a2).trim_start_matches('&').to_string();
+                // nearest binding `Some(<a0>)` / `<a0>` before the call
+                let call_line = model::line_of(syn::spanned::Spanned::span(&c));
+                let src = l.out.iter().filter(|(p, _)| {
+                    let pt = tok(p);
+                    (pt == a0t || pt == format!("Some({})", a0t)) && model::line_of(syn::spanned::Spanned::span(p)) <= call_line
+                }).last();
+                let Some((pat, init)) = src else {
+                    ctx.fail_closed("C07.bits", &format!("[{}]: the binding of `{}` was not found", key, a0t));
+                    continue;
+                };
+                let wrapped = tok(pat).starts_with("Some(");
+                for (what, vals) in [("ascending", vec![0i128, 2, 5]), ("highest declared first", vec![7, 0, 1]), ("highest in the middle", vec![1, 9, 3]), ("one bit", vec![4])] {
+                    let mut env = Env::new();
+                    env.insert(list_name.clone(), Val::List(vals.iter().enumerate().map(|(i, v)| dv(&format!("n{}", i), *v)).collect()));
+                    let want = *vals.iter().max().unwrap();
+                    let got = ev.eval(init, &mut env);
+                    let ok = match (&got, wrapped) {
+                        (Ok(Val::Ctor(s, p, _)), true) if s == "Some" => matches!(p.first(), Some(Val::Int { v, .. }) if *v == want),
+                        (Ok(Val::Int { v, .. }), false) => *v == want,
+                        _ => false,
+                    };
+                    match got {
+                        Err(e) => ctx.fail_closed("C07.bits", &format!("[{} {}]: `{}`: {}", key, what, tok(init), e)),
+                        Ok(g) => {
+                            if !ok {
+                                ctx.violate("C07.bits", &format!("highest-bit-argument:{}", f.name), &f.file, call_line,
+                                    &format!("`{}` sizes a named-bit list value with `{}` = {} for bits declared as {:?} ({}); the vector needs the highest declared bit number {} + 1 entries, listed bits above it are dropped", f.name, tok(init), g.show(), vals, what, want));
+                                break;
+                            }
+                        }
+                    }
+                }
+            }
+        }
+        ctx.floor("C07.bits/named-bit-callers", sites, 2);
+    }
+
     oid(m, ctx, &ev);
     strings(m, ctx, &ev);
 }
